@@ -12,6 +12,21 @@ TB_A = ("Trusted: CPython operator dispatch on engine.forksym.Lin, z3 linear ari
         "Stubs: tqdm -> identity, stderr -> sink.")
 
 CHECKS = {
+    "C17": dict(
+        technique="bounded symbolic execution (symbolic array elements, z3 LIA, ite model of min) of RangeMinQuery; py2smt bit-vector proof of _ilog2; exhaustive structural enumeration for ancestry queries",
+        text="RangeMinQuery's real constructor and query run on unconstrained symbolic integers; for every range of every length in the bound z3 "
+             "proves the result is the minimum of exactly that slice for ALL array contents. _ilog2 is translated from source to bit-vectors and "
+             "proven. The ancestry queries have no numeric dimension: every plane tree of any arity, every node pair and triple up to the bound "
+             "is enumerated on the real code against parent-chain definitions (stated as enumeration).",
+        design="5/C17", engine="forksym"),
+    "C18": dict(
+        technique="AST-to-SMT translation (z3 bit-vectors, ite-merged branches, unwinding assertion) of subseq_segment_dist vs. declarative run count; symbolic-element round trips",
+        text="subseq_segment_dist is translated from its current source into one bit-vector formula and z3 proves it equal to a declarative "
+             "run-count specification for ALL (child, parent, edges) with N-bit masks (one unsat query per N, plus unwinding, termination and "
+             "range side queries; translator validated against the real function on the repo's vectors and seeded inputs; cvc5 cross-check in "
+             "the thorough tier). mask_from_subseq/subseq_from_mask run on symbolic pairwise-distinct elements for every mask.",
+        design="5/C18", engine="py2smt",
+        note="Trusted: engine/py2smt.py (validated per run against the real function), z3 bit-vector theory, the declarative specification in checks/c18.py."),
     "C16": dict(
         technique="bounded symbolic execution (symbolic integer candidate values, z3 LIA) of Entry/Table + inductive single-update step",
         text="Candidate values are unconstrained symbolic integers; for every policy pair, tag pattern, batching and placement in the bound "
